@@ -128,6 +128,22 @@ CHECKS.update({
              "enumeration does not terminate in reasonable time there)."),
 })
 
+CHECKS.update({
+    "C18": dict(
+        text="Every product of 1..2 (3) objects from a 42-object zoo covering "
+             "every printable kind (antisymmetric tensors, t/ADC amplitudes "
+             "incl. cc, Coulomb integrals, symbolic denominators, "
+             "non-symmetric tensors, deltas, spin-labelled and numbered "
+             "indices, powers, orbital-energy brackets, a/a^dagger, NO groups) "
+             "x 8 prefactors, 3-term sums, and 11 outputs of the derivation "
+             "API are printed, imported and re-assumed; value table (exact), "
+             "tensor kind per symbol and text fixpoint are compared.",
+        design="4 C18",
+        note="Trusted: reference interpreter. Bounded: zoo, <=2 (3) objects "
+             "per term; derivation outputs of order <=2. Operator expressions "
+             "are compared structurally."),
+})
+
 NOT_YET = {}
 
 
